@@ -83,6 +83,11 @@ def failing_blocks(k):
               'GotWantException', 'gotwant'))
     B.append(('raise_percent_message', ['>>> t(%d)' % k, ">>> raise ValueError('100%% wrong: %%s %%d {} {0} \\\\1')"], [], 1, 'ValueError', 'exception'))
     B.append(('raise_falsy_exception', ['>>> q = 1', '>>> t(%d)' % k, ">>> raise FalsyError('nothing in it')"], [], 2, 'FalsyError', 'exception'))
+    # the failing part has put something else into sys.stdout and fails before putting the stream back (a closed file, a dead buffer):
+    # the failure is still recorded, rendered and reported through the runner's own stream
+    B.append(('raise_with_stdout_closed', ['>>> import os, sys', ">>> with open(os.devnull, 'w') as sys.stdout:", '...     t(%d)' % k, "...     raise ValueError('inside the with')"],
+              [], 3, 'ValueError', 'exception'))
+    B.append(('raise_with_stdout_replaced', ['>>> import io, sys', '>>> sys.stdout = io.StringIO(); t(%d); sys.stdout.close(); raise KeyError("gone")' % k], [], 1, 'KeyError', 'exception'))
     B.append(('traceback_want_mismatch', ['>>> boom(%d)' % k], ['Traceback (most recent call last):', 'KeyError: other'], 1, 'GotWantException', 'gotwant'))
     return B
 
